@@ -7,6 +7,8 @@ from .. import paths, waiters
 from ..core import FUNC, call_attr, calls_in, const, dotted, is_const, kwarg, norm, text, walk_local
 
 EXPLANATION = [
+    "C13.ltk-chain: the controller's long-term-key request reaches the pairing session with its arguments in the declared order: the arguments of `Host.long_term_key_provider(...)` have the field types the slot's Callable annotation lists, and along the get_long_term_key chain no Name argument sits at the position of a differently named parameter of the callee.",
+    "C13.identity: no `is` / `is not` comparison in the anchored modules has an operand declared as a number, byte string or string (identity of equal integers holds only inside CPython's small-integer cache, so such a test is right for values up to 256 and wrong afterwards).",
     'C13.session-lifecycle: command handlers are reached only while the session has not completed; a Pairing Request for a finished session replaces it; the SC key derivations are reached only with a computed DH key.',
     'C13.zero-valid: in smp.py the presence of a passkey is always tested with `is None` / `is not None` (0 is a valid passkey).',
     'C13.stk-scope: get_long_term_key returns the STK only on paths where the pairing is legacy, not completed, and Rand/EDIV match; the LTK is returned otherwise.',
